@@ -20,10 +20,12 @@ from vlib import Result, Undecided
 LOOP_ENV = {"VERIF_HOOK_MARKS": "1", "VERIF_HOOK_SKIP": "SyncWAL.tickCheck,Queue.before,Queue.after,Dispatcher.append,Dispatcher.dispatch,Dispatcher.recv,WriteCSM.beforeFlush,WriteCSM.afterFlush,RequestFlush.enter"}
 
 
-def loop_cases(script, conc, root, rng, shutdown=False):
+def loop_cases(script, conc, root, rng, shutdown=False, rare_ckpt=False):
     cases, meta = W.script_cases(script, conc, root)
     ops = cases[0]["ops"]
-    ops[0].update({"loop_wal_ms": rng.choice([1, 2, 3]), "loop_prim_ms": rng.choice([3, 5, 8]), "rotate": rng.choice([1, 2, 3])})
+    # rare_ckpt: the loop flushes but does not checkpoint during the script, so that several transaction groups wait
+    # un-checkpointed in the WAL (what start-up replay has to apply, in commit order)
+    ops[0].update({"loop_wal_ms": rng.choice([1, 2, 3]), "loop_prim_ms": (600000 if rare_ckpt else rng.choice([3, 5, 8])), "rotate": rng.choice([1, 2, 3])})
     for k, o in enumerate(ops):
         if o["op"] == "checkpoint":   # the loop checkpoints by itself: give it time instead
             ms = rng.choice([0, 4, 9, 15])
@@ -33,11 +35,11 @@ def loop_cases(script, conc, root, rng, shutdown=False):
     return cases, meta
 
 
-def record_loop(binary, script, conc, rng, tag, tail=None):
+def record_loop(binary, script, conc, rng, tag, tail=None, rare_ckpt=False):
     root = os.path.join(vlib.scratch(), "lrec_%s" % tag)
     if os.path.exists(root):
         shutil.rmtree(root)
-    cases, meta = loop_cases(script, conc, root, rng)
+    cases, meta = loop_cases(script, conc, root, rng, rare_ckpt=rare_ckpt)
     for o in (tail or [{"op": "sleep", "sleep_ms": rng.choice([0, 3, 12, 25])}]):
         cases[0]["ops"].append(o)
         meta.append((o["op"], None))
@@ -100,7 +102,7 @@ def run_c05(tier):
     hooks = {}
     for si, script in enumerate(scripts):
         conc = W.Conc(rng)
-        events, meta, cases = record_loop(binary, script, conc, rng, "c05_%d" % si)
+        events, meta, cases = record_loop(binary, script, conc, rng, "c05_%d" % si, rare_ckpt=(si % 2 == 0))
         ab = walabs.Abstractor(conc, meta).run(events)
         runs.append(dict(script=script, conc=conc, events=events, meta=meta, ab=ab))
         for k, v in hook_counts(events).items():
